@@ -15,6 +15,7 @@ import time
 
 VERIF = os.path.dirname(os.path.dirname(os.path.abspath(__file__)))
 PYTHON = '/venv/bin/python' if os.path.exists('/venv/bin/python') else sys.executable
+OUT = os.environ.get('VERIF_OUT', VERIF)  # evidence/ and replays/ go here (mutant trials use a scratch directory)
 NWORKERS = int(os.environ.get('EXASIM_WORKERS', '16'))
 HASHSEEDS = 4
 
@@ -239,8 +240,8 @@ def minimise(pool: Pool, mod, plan: dict, vclass: str, budget_s: float = 90.0, m
 
 
 def write_evidence(mod, tier: str, seed: int, agg: dict, wall: float) -> str:
-    os.makedirs(os.path.join(VERIF, 'evidence'), exist_ok=True)
-    path = os.path.join(VERIF, 'evidence', f'{mod.ID}.json')
+    os.makedirs(os.path.join(OUT, 'evidence'), exist_ok=True)
+    path = os.path.join(OUT, 'evidence', f'{mod.ID}.json')
     runs = max(1, agg['evaluations'])
     ev = {
         'property_id': mod.ID,
@@ -393,8 +394,8 @@ def run_check(prop: str, tier: str, seed: int, budget: float | None = None, coun
                 continue
             if match_known(fv, known) is not None:
                 continue
-            os.makedirs(os.path.join(VERIF, 'replays'), exist_ok=True)
-            rpath = os.path.join(VERIF, 'replays', f'{mod.ID}-{tier}-{seed}-{fv["class"].replace("/", "_")}.json')
+            os.makedirs(os.path.join(OUT, 'replays'), exist_ok=True)
+            rpath = os.path.join(OUT, 'replays', f'{mod.ID}-{tier}-{seed}-{fv["class"].replace("/", "_")}.json')
             with open(rpath, 'w') as f:
                 json.dump(
                     {
